@@ -42,7 +42,7 @@ ALL_FEATURES = [
     'seq', 'set', 'choice', 'seqof', 'setof', 'of_size',
     'optional', 'default', 'ext', 'ext_groups', 'refs', 'recursion',
     'imports', 'own_tags', 'big_tags', 'class_tags', 'ext_implied',
-    'components_of', 'big_sizes', 'nested_inline'
+    'components_of', 'big_sizes', 'nested_inline', 'top_tags'
 ]
 
 
@@ -188,6 +188,27 @@ class Gen(object):
         self.recursion_budget = 1 if self.has('recursion') else 0
         # Top level types are mostly structured.
         node = self.gen_type(0, top=True)
+
+        if self.has('top_tags') and rng.random() < 0.6:
+            # Tag on the type assignment itself (outermost identifier
+            # octets of every message of this type).
+            number = rng.choice([0, 1, 30, 31, 127, 128, 16383, 16384,
+                                 2 ** 21 - 1, 2 ** 21, 2 ** 28 - 1, 2 ** 28])
+            cls = rng.choice(['', 'APPLICATION ', 'PRIVATE '])
+            kind = rng.choice(['', ' EXPLICIT', ' IMPLICIT'])
+
+            if kind == ' IMPLICIT' and self.is_choiceish(node):
+                kind = ''
+
+            node = Node(k=node.k, text='[{}{}]{} {}'.format(cls, number, kind,
+                                                           node.text),
+                        utags=None, zero=node.zero,
+                        untagged_choice=False, has_ext=node.has_ext,
+                        recursive_inside=node.recursive_inside,
+                        lo=node.lo, hi=node.hi, names=node.names,
+                        named=node.named, size=node.size,
+                        alphabet=node.alphabet, tagged_top=True)
+
         self.cur.types.append((name, node))
 
     # -- types -------------------------------------------------------------
@@ -511,6 +532,11 @@ class Gen(object):
             else:
                 alphabet = rng.choice(['"a".."z"', '"A".."F" | "0".."9"',
                                        '"a" | "b"', '"x"'])
+
+            # A one-character alphabet is a zero-width character in
+            # PER/UPER (see DESIGN C08, scope restriction).
+            if self.zero_width_matters() and alphabet in ('"x"',):
+                alphabet = '"x" | "y"'
 
             constraints.append('FROM({})'.format(alphabet))
 
